@@ -519,6 +519,19 @@ def run(ctx: Any, prog: Program) -> None:
                   'records is wiped or altered by constructing or loading another one', func=cn14, text=f'{cn14}.{at14} is per-object state')
     ctx.check('C13.Z14', True, vpk, vpk.tree, f'{len(shared14)} shared mutable class attributes found in VPK / FileInfo', func='<module>', text='VPK / FileInfo class-level containers examined')
 
+    # ---- Z4 (continued): the parts are used as _get_file_parts returned them -----------------------------------------------------------------
+    # adding, looking up and deleting all go through the same split; a method that rewrites one of the three parts afterwards (`ext = ext.lower()`
+    # in new_file) files the entry under a key the other methods do not compute for the same name
+    for mq, mfl in vpk.all_funcs().items():
+        for mf in mfl:
+            for a in walk_no_nested(mf):
+                if isinstance(a, ast.Assign) and isinstance(a.value, ast.Call) and dotted(a.value.func) == '_get_file_parts' and len(a.targets) == 1 and isinstance(a.targets[0], ast.Tuple):
+                    parts_ = [e.id for e in a.targets[0].elts if isinstance(e, ast.Name)]
+                    rew = [n for n in walk_no_nested(mf) if isinstance(n, (ast.Assign, ast.AugAssign)) and n is not a
+                           and any(isinstance(t, ast.Name) and t.id in parts_ and isinstance(t.ctx, ast.Store) for t0 in (n.targets if isinstance(n, ast.Assign) else [n.target]) for t in ast.walk(t0)) and n.lineno > a.lineno]
+                    ctx.check('C13.Z4', not rew, vpk, rew[0] if rew else a, f'{mq} rewrites a part of the split name after _get_file_parts (`{U(rew[0])[:50] if rew else ""}`): the other entry points use the parts as returned, so the '
+                              'same name is filed and looked up under different keys', func=mq, text=f'{mq}: parts of the name used as split')
+
     # ---- Z12: a listed name leads back to its entry ---------------------------------------------------------------------------------------
     # FileInfo.filename / iteration / extract_all hand out `_join_file_parts(dir, name, ext)`; every lookup splits a name with `_get_file_parts`.
     # The two are interpreted (engine.minieval, stdlib path functions modelled by posixpath) on a small family of names: the split of a
@@ -628,6 +641,7 @@ def run(ctx: Any, prog: Program) -> None:
         ctx.shape('C13.Z6', False, vpk, w, 'preload slice bound not recognised', func='FileInfo.write', text='preload bounded to 16 bits')
 
 MUTANTS = [
+    {'id': 'new_file_lowercases_extension', 'file': 'vpk.py', 'find': "        path, name, ext = _get_file_parts(filename, root)\n", 'replace': "        path, name, ext = _get_file_parts(filename, root)\n        ext = ext.lower()\n", 'expect': 'C13.Z4'},
     {'id': 'vpk_class_level_started_set', 'file': 'vpk.py', 'find': "    _fileinfo: dict[str, dict[str, dict[str, FileInfo]]]\n", 'replace': "    _fileinfo: dict[str, dict[str, dict[str, FileInfo]]]\n    _started_archives: set = set()\n", 'extra': [{'file': 'vpk.py', 'find': "        self._fileinfo.clear()\n        self.footer_data = b''", 'replace': "        self._fileinfo.clear()\n        self._started_archives.clear()\n        self.footer_data = b''"}], 'expect': 'C13.Z14'},
     {'id': 'dirfile_filename_encoded_by_hand', 'file': 'vpk.py', 'find': "                        _write_nullstring(file, filename)\n", 'replace': "                        file.write(filename.encode('ascii', 'surrogateescape') + b'\\x00')\n", 'expect': 'C13.Z2'},
     {'id': 'write_splits_preload_before_shortcut', 'file': 'vpk.py', 'find': "        new_checksum = checksum(data)\n\n        if new_checksum == self.crc:", 'replace': "        new_checksum = checksum(data)\n        self.start_data = data[:self.vpk.dir_limit or 0xFFFF]\n\n        if new_checksum == self.crc:", 'expect': 'C13.Z13'},
